@@ -946,7 +946,7 @@ func (c *punchConn) Run(op string) vh.Result {
 	case f[0] == "read" && len(f) == 2:
 		return c.runRead(f[1])
 	case f[0] == "conc" && len(f) == 6:
-		return runConc(f)
+		return punchRunConc(f)
 	}
 	return vh.Result{Out: "bad-op", Oracle: []string{"harness: unparsable op"}}
 }
@@ -1064,7 +1064,7 @@ func (c *punchConn) runRead(specS string) vh.Result {
 // conc <rounds> <writers> <stable> <volatile> <specs>: the stable attempts stay registered, the
 // volatile ones are added and removed by `writers` goroutines while one reader drains the wrapped
 // conn (which cycles through the packets until the writers are done).
-func runConc(f []string) vh.Result {
+func punchRunConc(f []string) vh.Result {
 	rounds, _ := strconv.Atoi(f[1])
 	writers, _ := strconv.Atoi(f[2])
 	parseReg := func(s string) []attemptT {
